@@ -282,4 +282,8 @@ def boundary_pairs(win):
                 out.append((a, a[:cut]))
                 out.append((a, a[cut + 1:]))
                 out.append((a, a[a.find(s0) + 1:]))
+    # a fixed shuffle: the callers take every k-th pair, and the pairs above come in regular groups per path, so a
+    # plain stride would always pick the same slot of each group (it did: the re-spelling slot was never taken)
+    import random as _random
+    _random.Random(20261002).shuffle(out)
     return out
